@@ -3,7 +3,7 @@
    projected models against the specification [shape]. *)
 From Coq Require Import ZArith List Bool String Arith.
 From FrameModel Require Import Num.QcTac PB.Expr PB.Cnf PB.Amo PB.Robdd PB.Codify PB.Sat Cases.Cmp Cases.CmpC07
-  RectSearch.Coords RectSearch.Names RectSearch.Encode RectSearch.Registry RectSearch.Shapes.
+  RectSearch.Coords RectSearch.Names RectSearch.Encode RectSearch.Registry RectSearch.Shapes RectSearch.SelectBox.
 Import ListNotations.
 Local Open Scope nat_scope.
 
@@ -59,6 +59,12 @@ Definition c08_quality_check (inp : problem) (factor ratio : Qc) (tba : Z) (sat 
   Z.eqb tba (theoretical_area inp factor) &&
   let qm := quality_of inp factor ratio tba (if sat then Some (fun v => existsb (var_eqb v) trues) else None) in
   qclose 2 qm qm q.
+
+(* rect_io.select_box on the entries get_alloc produced: the list of cells, exactly *)
+Definition cell_eqb (a b : cell) : bool :=
+  Qceqb (cx1 a) (cx1 b) && Qceqb (cy1 a) (cy1 b) && Qceqb (cx2 a) (cx2 b) && Qceqb (cy2 a) (cy2 b) && Qceqb (cp a) (cp b).
+Definition c08_select_check (sel : string) (al : list arect) (got : problem) : bool :=
+  leqb cell_eqb (select_box sel al) got.
 
 (* ---- the projected models of a small instance against the specification ---- *)
 Definition sigma_bits (M : list (list bool)) (i b : nat) : bool := nth b (nth i M []) false.
